@@ -2,6 +2,8 @@ import MoneroModel.Proofs.Json2
 import MoneroModel.Proofs.Json3
 import MoneroModel.Proofs.Json5
 import MoneroModel.Proofs.Json6
+import MoneroModel.Proofs.Json7
+import MoneroModel.Proofs.JsonShapes
 import MoneroModel.Props.C12
 import MoneroModel.Props.C15
 open Monero Monero.Json
@@ -81,6 +83,18 @@ theorem C19_roundtrip_SubField (f : Extra.SubField) (h : Json.wfSubField f) : su
 /-- `ExtraField(Vec<SubField>)` -/
 theorem C19_roundtrip_ExtraField (fs : List Extra.SubField) (h : ∀ f ∈ fs, Json.wfSubField f) :
     extraFieldFromJson (extraFieldJ fs) = some fs := extraField_rt fs h
+/-- the values of C16 are instances: whatever `SubField::consensus_decode` returns (for any key-validity predicate `vk`, from
+any bytes) round-trips through its JSON tree … -/
+theorem C19_roundtrip_decoded_SubField (vk : Bytes → Bool) (b r : Bytes) (sf : Extra.SubField)
+    (h : Extra.subFieldRd vk b = (some sf, r)) : subFieldFromJson (subFieldJ sf) = some sf :=
+  subField_rt sf (subFieldRd_wf vk b sf r h)
+/-- … and so does the `ExtraField` that `ExtraField::try_parse` / `RawExtraField::try_parse` return for ANY raw extra (complete
+parse or salvaged fields) -/
+theorem C19_roundtrip_parsed_ExtraField (vk : Bytes → Bool) (e : Bytes) :
+    extraFieldFromJson (extraFieldJ (Extra.tryParse vk e).fields) = some (Extra.tryParse vk e).fields ∧
+    extraFieldFromJson (extraFieldJ (Extra.rawTryParse vk e)) = some (Extra.rawTryParse vk e) :=
+  ⟨extraField_rt _ (tryParse_wf vk e), extraField_rt _ (tryParse_wf vk e)⟩
+
 /-- the variant names are pairwise distinct (so the first matching branch of the reader is the only one), and a document
 naming no variant of `SubField` is refused -/
 theorem C19_SubField_unknown_variant_refused (tag : String) (c : Json) (h : tag ∉ subFieldNames) :
@@ -131,6 +145,88 @@ theorem C19_roundtrip_decoded_TransactionPrefix (b r : Bytes) (p : Prefix) (h : 
 theorem C19_roundtrip_wire_then_json (t : Tx) (h : _root_.wfTx t) (r : Bytes) :
     ∃ t', tx (encTx t ++ r) = some (t', r) ∧ txFromJson (txJ t') = some t := by
   refine ⟨t, complete_tx t r h, C19_roundtrip_wire t h⟩
+
+/-! ## the shapes are those DECLARED in /repo (relation A)
+
+`Gen/JsonShapes.lean` is regenerated from the current source on every run: every struct / enum deriving `Serialize` /
+`Deserialize` with its field / variant identifiers in declaration order and every `serde(..)` attribute. The theorems below tie
+the hand-written names of `Model/Json.lean` to that table: a renamed, added, removed or reordered field or variant, a new
+deriving type, a new attribute (`default`, `rename`, `skip…`, `flatten`, `with`, `tag`, …) or a new hand-written impl makes one
+of them false, i.e. the build of this file fails. (The READERS are tied to the same names by the round-trip theorems: a reader
+using another key would not read back what the serialiser writes.) -/
+
+/-- the items of /repo that derive serde impls are exactly the ones modelled, each of the kind modelled -/
+theorem C19_shape_items :
+    Gen.jsonShapes.map (fun i => (i.name, i.kind)) =
+      [("Block", "struct"), ("BlockHeader", "struct"), ("BoroSig", "struct"), ("Bulletproof", "struct"),
+       ("BulletproofPlus", "struct"), ("Clsag", "struct"), ("CtKey", "struct"), ("EcdhInfo", "enum"), ("ExtraField", "newtype"),
+       ("Hash", "fixed_hash(32)"), ("Hash8", "fixed_hash(8)"), ("Index", "struct"), ("Key", "struct"), ("Key64", "struct"),
+       ("KeyImage", "struct"), ("MgSig", "struct"), ("PublicKey", "struct"), ("RangeSig", "struct"), ("RawExtraField", "newtype"),
+       ("RctSig", "struct"), ("RctSigBase", "struct"), ("RctSigPrunable", "struct"), ("RctType", "enum"), ("Signature", "struct"),
+       ("SubField", "enum"), ("Transaction", "struct"), ("TransactionPrefix", "struct"), ("TxIn", "enum"), ("TxOut", "struct"),
+       ("TxOutTarget", "enum"), ("VarInt", "newtype")] := by decide
+
+/-- the only serde attributes in /repo besides the `crate` path are the three the model implements: `transparent` on
+`RawExtraField`, `BigArray` on `Key64.keys`, `as_pico` on `RctSigBase.txn_fee`; and the only hand-written impls are `Address`'s -/
+theorem C19_shape_attributes :
+    genAttrs = [("Key64", "keys", "with=\"BigArray\""), ("RawExtraField", "", "transparent"),
+      ("RctSigBase", "txn_fee", "with=\"crate::util::amount::serde::as_pico\"")] ∧
+    Gen.jsonHandWritten = ["Deserialize for Address", "Serialize for Address"] := by decide
+
+/-- "under every configuration": every serde derive and every `serde(..)` attribute in /repo is applied under exactly the
+condition `feature = "serde"` — none unconditionally, none under `full` / `experimental` / another feature, and no deriving item
+carries a `#[cfg(..)]` of its own; so the set of impls and their shapes do not depend on any other feature (statically; the
+harness builds the crate with `serde` + the default features only) -/
+theorem C19_shape_feature_gate : Gen.jsonCfgConditions = ["feature=\"serde\""] := by decide
+
+/-- every struct is written as an object whose keys are the declared field identifiers, in declaration order — whatever the value -/
+theorem C19_shape_structs :
+    (∀ k, objKeys (keyJ k) = genFields "Key") ∧ (∀ b, objKeys (key64J b) = genFields "Key64") ∧
+    (∀ b, objKeys (sigJ b) = genFields "Signature") ∧ (∀ k, objKeys (ctKeyJ k) = genFields "CtKey") ∧
+    (∀ o, objKeys (txOutJ o) = genFields "TxOut") ∧ (∀ p, objKeys (prefixJ p) = genFields "TransactionPrefix") ∧
+    (∀ b, objKeys (baseJ b) = genFields "RctSigBase") ∧ (∀ b, objKeys (rangeSigJ b) = genFields "RangeSig") ∧
+    (∀ b, (getKey "asig" (rangeSigJ b)).map objKeys = some (genFields "BoroSig")) ∧
+    (∀ x, objKeys (bpJ x) = genFields "Bulletproof") ∧ (∀ x, objKeys (bppJ x) = genFields "BulletproofPlus") ∧
+    (∀ m, objKeys (mgJ m) = genFields "MgSig") ∧ (∀ c, objKeys (clsagJ c) = genFields "Clsag") ∧
+    (∀ p, objKeys (prunableJ p) = genFields "RctSigPrunable") ∧ (∀ b p, objKeys (rctSigJ b p) = genFields "RctSig") ∧
+    (∀ t, objKeys (txJ t) = genFields "Transaction") ∧ (∀ h, objKeys (headerJ h) = genFields "BlockHeader") ∧
+    (∀ b, objKeys (blockJ b) = genFields "Block") ∧ (∀ i, objKeys (indexJ i) = genFields "Index") ∧
+    (∀ k, objKeys (publicKeyJ k) = genFields "PublicKey") :=
+  ⟨fun _ => rfl, fun _ => rfl, fun _ => rfl, fun _ => rfl, fun _ => rfl, fun _ => rfl, fun _ => rfl, fun _ => rfl, fun _ => rfl,
+   fun _ => rfl, fun _ => rfl, fun _ => rfl, fun _ => rfl, fun _ => rfl, fun _ _ => rfl, fun _ => rfl, fun _ => rfl, fun _ => rfl,
+   fun _ => rfl, fun _ => rfl⟩
+
+/-- every enum value is written as `{"Variant": content}` with the declared variant identifier; a struct variant's content has
+the declared field identifiers in declaration order (`KeyImage` inside `TxIn::ToKey` too); `RctType`'s unit variants are the
+names of the model's table, in declaration order (so the bound 7 of `wfBase` is the number of declared variants) -/
+theorem C19_shape_enums :
+    (∀ h, structVariantOf (txInJ (.gen h)) = (genVariants "TxIn")[0]?) ∧
+    (∀ a o k, structVariantOf (txInJ (.toKey a o k)) = (genVariants "TxIn")[1]?) ∧
+    (genVariants "TxIn").length = 2 ∧
+    (∀ a o k, ((variantOf (txInJ (.toKey a o k))).bind fun x => getKey "k_image" x.2).map objKeys = some (genFields "KeyImage")) ∧
+    (∀ k, structVariantOf (targetJ (.key k)) = (genVariants "TxOutTarget")[0]?) ∧
+    (∀ k t, structVariantOf (targetJ (.tagged k t)) = (genVariants "TxOutTarget")[1]?) ∧
+    (genVariants "TxOutTarget").length = 2 ∧
+    (∀ m a, structVariantOf (ecdhJ (.std m a)) = (genVariants "EcdhInfo")[0]?) ∧
+    (∀ a, structVariantOf (ecdhJ (.bp a)) = (genVariants "EcdhInfo")[1]?) ∧
+    (genVariants "EcdhInfo").length = 2 ∧
+    genVariants "RctType" = rctNames.map (fun n => (n, [])) ∧ rctNames.length = 7 :=
+  ⟨fun _ => rfl, fun _ _ _ => rfl, rfl, fun _ _ _ => rfl, fun _ => rfl, fun _ _ => rfl, rfl, fun _ _ => rfl, fun _ => rfl, rfl,
+   by decide, rfl⟩
+
+/-- `SubField`: the declared variants are the model's names, five newtype variants and the two-field tuple variant
+`MergeMining`; each constructor of the model is written under its variant -/
+theorem C19_shape_SubField :
+    genVariants "SubField" = [("TxPublicKey", ["0"]), ("Nonce", ["0"]), ("Padding", ["0"]), ("MergeMining", ["0", "1"]),
+      ("AdditionalPublickKey", ["0"]), ("MysteriousMinerGate", ["0"])] ∧
+    (genVariants "SubField").map (·.1) = subFieldNames ∧
+    (∀ k, (variantOf (subFieldJ (.txPub k))).map (·.1) = subFieldNames[0]?) ∧
+    (∀ n, (variantOf (subFieldJ (.nonce n))).map (·.1) = subFieldNames[1]?) ∧
+    (∀ n, (variantOf (subFieldJ (.padding n))).map (·.1) = subFieldNames[2]?) ∧
+    (∀ d h, (variantOf (subFieldJ (.mergeMining d h))).map (·.1) = subFieldNames[3]?) ∧
+    (∀ ks, (variantOf (subFieldJ (.addKeys ks))).map (·.1) = subFieldNames[4]?) ∧
+    (∀ d, (variantOf (subFieldJ (.minerGate d))).map (·.1) = subFieldNames[5]?) :=
+  ⟨by decide, by decide, fun _ => rfl, fun _ => rfl, fun _ => rfl, fun _ _ => rfl, fun _ => rfl, fun _ => rfl⟩
 
 /-! ## amount helpers -/
 
